@@ -368,6 +368,131 @@ def leg_infinite(ns, res):
                 res.violation('py:aggregates-over-infinite-values', '[py] %s over %r -> %r (error %r) ; expected per key (SUM, MAX, MIN, AVG) %r' % (q, rows, out, err, exp), {'leg': 'infinite', 'query_text': q, 'A': rows, 'engine': 'py'})
 
 
+STAR_SHAPES = [
+    # (query text, item list: '*' = the record's cells, ('agg', func) = aggregate of the second cell, ('count',) = COUNT(*), ('k',) = first cell), grouped by first cell or not
+    ('select *, SUM(a2) group by a1', ['*', ('agg', 'SUM')], True),
+    ('select a.*, MAX(a2) group by a1', ['*', ('agg', 'MAX')], True),
+    ('select COUNT(*), * group by a1', [('count',), '*'], True),
+    ('select sum(a2), * group by a1', [('agg', 'SUM'), '*'], True),
+    ('select a1, *, MIN(a2) group by a1', [('k',), '*', ('agg', 'MIN')], True),
+    ('select *, ARRAY_AGG(a2), count(*) group by a1', ['*', ('agg', 'ARRAY_AGG'), ('count',)], True),
+    ('select *, COUNT(*)', ['*', ('count',)], False),
+    ('select *, SUM(a2), * group by a1', ['*', ('agg', 'SUM'), '*'], True),
+    ('select *, MAX(a2) where a2 != "7" group by a1', ['*', ('agg', 'MAX')], True),
+]
+
+
+def star_ragged_expect(A, items, grouped, where_not_7):
+    """None when the select list does not have the same shape for every passing record (nothing is demanded then but a failure or a right answer per group);
+    else ('rows', rows) or ('error',) when a plain column is not constant in a group."""
+    recs = [r for r in A if not (where_not_7 and r[1] == '7')]
+    shaped = []
+    for r in recs:
+        vals = []
+        for it in items:
+            if it == '*':
+                vals.extend(('plain', c) for c in r)
+            elif it[0] == 'k':
+                vals.append(('plain', r[0]))
+            elif it[0] == 'count':
+                vals.append(('count', 1))
+            else:
+                vals.append((it[1], r[1]))
+        shaped.append((r[0] if grouped else None, vals))
+    uniform = len(set(tuple(k for k, _v in vals) for _g, vals in shaped)) <= 1
+    groups = {}
+    for g, vals in shaped:
+        groups.setdefault(g, []).append(vals)
+    rows, inconsistent = [], False
+    for g in sorted(groups, key=lambda x: (x is not None, x)):
+        gv = groups[g]
+        if len(set(tuple(k for k, _v in vals) for vals in gv)) > 1:
+            return uniform, None
+        row = []
+        for j, (kind, _v) in enumerate(gv[0]):
+            col = [vals[j][1] for vals in gv]
+            if kind == 'plain':
+                if len(set(col)) > 1:
+                    inconsistent = True
+                row.append(col[0])
+            elif kind == 'count':
+                row.append(len(col))
+            elif kind == 'ARRAY_AGG':
+                row.append(col)
+            else:
+                nums = [int(c) for c in col]
+                row.append({'SUM': sum, 'MAX': max, 'MIN': min}[kind](nums))
+        rows.append(row)
+    return uniform, (('error',) if inconsistent else ('rows', rows))
+
+
+def leg_star_ragged(ns, res, rng, count):
+    """A star next to aggregates over tables whose records differ in length: the select list then has a different number of columns per record.
+    Demanded (statement: every aggregate column equals the aggregate of ITS argument over the group; a non-constant plain column fails the query):
+    the query either fails, or every group's record holds the aggregates of that group's own arguments - never an aggregate fed from a shifted column."""
+    from ..js import bridge
+    node = bridge.Node.start()
+    try:
+        for n in range(count):
+            keys = rng.choice([['x'], ['x', 'y'], ['x', 'y', 'z']])
+            A = []
+            for _ in range(rng.randrange(1, 7)):
+                v = rng.choice(['3', '3', '4', '7', '10', '100'])
+                r = [rng.choice(keys), v]
+                shape = rng.random()
+                if shape < 0.25:
+                    r.append(v)
+                elif shape < 0.4:
+                    r.append(rng.choice(['3', '100', 'w']))
+                elif shape < 0.45:
+                    r += [v, v]
+                A.append(r)
+            if rng.random() < 0.3:
+                A.sort(key=lambda r: -len(r))
+            elif rng.random() < 0.3:
+                A.sort(key=len)
+            query, items, grouped = STAR_SHAPES[n % len(STAR_SHAPES)]
+            uniform, exp = star_ragged_expect(A, items, grouped, 'where' in query)
+            for engine in ('py', 'js'):
+                out, err = [], None
+                if engine == 'py':
+                    try:
+                        ns.rbql.query_table(query, [list(r) for r in A], out, [])
+                    except Exception as e:
+                        err = '%s: %s' % (util.error_class(e), str(e)[:160])
+                else:
+                    if node is None:
+                        continue
+                    rep = node.call({'op': 'query_table', 'query': query, 'input': A, 'join': None, 'input_cols': None, 'join_cols': None})
+                    out = rep.get('out')
+                    if rep.get('error') is not None:
+                        err = '%s: %s' % (rep['error'].get('cls'), str(rep['error'].get('msg'))[:160])
+                res.evaluations += 1
+                res.count('star_ragged_runs:' + engine)
+                res.count('star_ragged_uniform' if uniform else 'star_ragged_non_uniform')
+                res.nontrivial('star-ragged', query, repr(A))
+                case = {'leg': 'star-ragged', 'query_text': query, 'A': A, 'engine': engine}
+                if exp is None:
+                    ok = err is not None
+                    want = 'a failure (one group has select lists of different shapes)'
+                elif exp[0] == 'error':
+                    ok = err is not None
+                    want = 'a failure (a plain column is not constant within a group)'
+                elif uniform:
+                    ok = err is None and out == exp[1]
+                    want = repr(exp[1])
+                else:
+                    ok = err is not None or out == exp[1]
+                    want = 'a failure or %r' % (exp[1],)
+                if err is not None:
+                    res.count('star_ragged_failures_seen')
+                if not ok:
+                    res.violation('%s:star-aggregate-over-ragged-records' % engine, '[%s] %s over %r -> %r (error %r) ; demanded: %s' % (engine, query, A, out, err, want), case)
+    finally:
+        if node is not None:
+            node.close()
+
+
 def plan(tier, seed):
     k = NSHARDS[tier]
     return [{'k': k, 'i': i, 'n': CASES[tier] // k} for i in range(k)] + [{'kind': 'typed-aggregates', 'i': i, 'n': 240 if tier == 'quick' else 3000} for i in range(2 if tier == 'quick' else 6)]
@@ -381,6 +506,8 @@ def run_shard(spec, res):
     js = common.JsLeg(res, PROPERTY, classify_js)
     if spec['i'] == 0:
         leg_infinite(ns, res)
+    if spec['i'] == 1:
+        leg_star_ragged(ns, res, rng, 400 if spec['n'] < 2000 else 4000)
     try:
         for n in range(spec['n']):
             builtin = n % 16 == 15
@@ -413,7 +540,7 @@ def summarize(tier, seed, m):
     aggs = {k[4:]: v for k, v in m['counters'].items() if k.startswith('agg:')}
     return {
         'rule': 'aggregate queries with 1-5 aggregates out of COUNT(*|1|x), MIN, MAX, SUM, AVG, VARIANCE, MEDIAN, ARRAY_AGG, ANY_VALUE in upper / lower / capitalised spellings (expression arguments in the Python leg), group keys and constants as plain columns, no GROUP BY / one key / two keys / NR %% k / len(key), optional WHERE and TOP/LIMIT, over tables of 0-40 rows with int, float, mixed int->float, zero-heavy and negative numeric strings, native int / float cells, and integers beyond 2**53 (Python leg only); one case in 16 exercises builtin min/max/sum dispatch in a non-aggregate query; a non-constant plain column is injected in 6%% of the cases and must be rejected with the record number. a typed front-ends leg: one query with all nine aggregates grouped by a string, integer or mixed integer / float key (optionally filtered) over 1-40 records delivered by a dataframe (int64 / float64 / object), a sqlite table (INTEGER / REAL / TEXT) and a CSV reader (numeric strings), integers up to 2**60 (sums and extrema must stay exact integers), floats in quarters (exact rational reference), groups in ascending key order; distinct_nontrivial = distinct (query, table) with at least one result row.',
-        'required': ['typed_aggregate_runs:pandas', 'typed_aggregate_runs:sqlite', 'typed_aggregate_runs:csv', 'typed_aggregate_groups', 'py_aggregate_cases', 'py_builtin_dispatch_cases', 'groups_checked', 'predicted_errors', 'js_cases'],
+        'required': ['star_ragged_runs:py', 'star_ragged_runs:js', 'star_ragged_non_uniform', 'star_ragged_failures_seen', 'typed_aggregate_runs:pandas', 'typed_aggregate_runs:sqlite', 'typed_aggregate_runs:csv', 'typed_aggregate_groups', 'py_aggregate_cases', 'py_builtin_dispatch_cases', 'groups_checked', 'predicted_errors', 'js_cases'],
         'extra': {'aggregate_spellings_seen': aggs},
         'assumptions': ['numeric tolerance 1e-9 relative for the results every implementation computes in floating point (AVG, VARIANCE, the mean of the two middle values of MEDIAN, SUM / MIN / MAX over floats); the scale is max(1, |result|, largest |operand|) - for VARIANCE the largest squared operand - because that is what bounds a floating-point sum; integer MIN / MAX / SUM / MEDIAN (odd count) / COUNT are compared exactly, also beyond 2**53 (Python leg)', 'plain (non-aggregate) columns may hold None (a missing cell): None and a value within one group count as non-constant, a group of None only as constant'],
     }
@@ -421,4 +548,37 @@ def summarize(tier, seed, m):
 
 def replay(case, res):
     ns = env.import_rbql()
+    if case.get('leg') == 'star-ragged':
+        return replay_star_ragged(ns, res, case)
     common.replay_case(ns, res, case, PROPERTY, False, classify_js)
+
+
+def replay_star_ragged(ns, res, case):
+    from ..js import bridge
+    query, A = case['query_text'], case['A']
+    shape = [sh for sh in STAR_SHAPES if sh[0] == query][0]
+    uniform, exp = star_ragged_expect(A, shape[1], shape[2], 'where' in query)
+    out, err = [], None
+    if case['engine'] == 'py':
+        try:
+            ns.rbql.query_table(query, [list(r) for r in A], out, [])
+        except Exception as e:
+            err = '%s: %s' % (util.error_class(e), str(e)[:160])
+    else:
+        node = bridge.Node.start()
+        try:
+            rep = node.call({'op': 'query_table', 'query': query, 'input': A, 'join': None, 'input_cols': None, 'join_cols': None})
+        finally:
+            node.close()
+        out = rep.get('out')
+        if rep.get('error') is not None:
+            err = str(rep['error'])
+    res.evaluations += 1
+    if exp is None or exp[0] == 'error':
+        ok = err is not None
+    elif uniform:
+        ok = err is None and out == exp[1]
+    else:
+        ok = err is not None or out == exp[1]
+    if not ok:
+        res.violation('%s:star-aggregate-over-ragged-records' % case['engine'], '[%s] %s over %r -> %r (error %r)' % (case['engine'], query, A, out, err), case)
